@@ -63,6 +63,10 @@ type invocation struct {
 	inProgress  bool
 	timerCancel context.CancelFunc
 	options     wamp.Dict
+	// registration the call was routed under; used for all later chunks of a
+	// progressive call invocation.
+	regID          wamp.ID
+	forwardTimeout bool
 }
 
 type requestID struct {
@@ -646,18 +650,6 @@ func (d *dealer) syncMatchProcedure(procedure wamp.URI) (*registration, bool) {
 }
 
 func (d *dealer) syncCall(caller *wamp.Session, msg *wamp.Call) {
-	reg, ok := d.syncMatchProcedure(msg.Procedure)
-	if !ok || len(reg.callees) == 0 {
-		// If no registered procedure, send error.
-		d.trySend(caller, &wamp.Error{
-			Type:    msg.MessageType(),
-			Request: msg.Request,
-			Details: wamp.Dict{},
-			Error:   wamp.ErrNoSuchProcedure,
-		})
-		return
-	}
-
 	var callee *wamp.Session
 	var invocationID wamp.ID
 	var invk *invocation
@@ -668,7 +660,25 @@ func (d *dealer) syncCall(caller *wamp.Session, msg *wamp.Call) {
 		request: msg.Request,
 	}
 
+	// A further chunk of an ongoing progressive call invocation stays with
+	// the callee and registration the call was routed to; only a new call is
+	// matched against the registrations.
 	storedInvocationID, ok := d.invocationByCall[callReqID]
+	var reg *registration
+	if !ok {
+		var found bool
+		reg, found = d.syncMatchProcedure(msg.Procedure)
+		if !found || len(reg.callees) == 0 {
+			// If no registered procedure, send error.
+			d.trySend(caller, &wamp.Error{
+				Type:    msg.MessageType(),
+				Request: msg.Request,
+				Details: wamp.Dict{},
+				Error:   wamp.ErrNoSuchProcedure,
+			})
+			return
+		}
+	}
 	isInProgress, _ := msg.Options[wamp.OptProgress].(bool)
 	details := wamp.Dict{}
 	details[wamp.OptProgress] = isInProgress
@@ -724,6 +734,9 @@ func (d *dealer) syncCall(caller *wamp.Session, msg *wamp.Call) {
 			callee:     callee,
 			inProgress: isInProgress,
 			options:    msg.Options,
+
+			regID:          reg.id,
+			forwardTimeout: reg.forwardTimeout,
 		}
 
 		// Let's check if callee supports this feature. A Callee that supports
@@ -861,7 +874,7 @@ func (d *dealer) syncCall(caller *wamp.Session, msg *wamp.Call) {
 		// Check that callee supports call_timeout and requested
 		// forward_timeout - if YES then propagate timeout value and handling
 		// to the callee side
-		if callee.HasFeature(wamp.RoleCallee, wamp.FeatureCallTimeout) && reg.forwardTimeout {
+		if callee.HasFeature(wamp.RoleCallee, wamp.FeatureCallTimeout) && invk.forwardTimeout {
 			if !ok { // Propagate the option only during first progressive call.
 				details[wamp.OptTimeout] = callerTimeout
 			}
@@ -875,7 +888,7 @@ func (d *dealer) syncCall(caller *wamp.Session, msg *wamp.Call) {
 	// procedure.
 	invMsg := &wamp.Invocation{
 		Request:      invocationID,
-		Registration: reg.id,
+		Registration: invk.regID,
 		Details:      details,
 		Arguments:    msg.Arguments,
 		ArgumentsKw:  msg.ArgumentsKw,
